@@ -750,11 +750,11 @@ impl Gen {
     fn field(&mut self) -> FieldIn {
         let w: [u64; 9] = match self.mode.as_str() {
             //            pseudo exact statC skip  custP custF large near  huge
-            "evict" => [4, 1, 6, 4, 40, 25, 6, 4, 1],
-            "resize" => [8, 2, 10, 6, 40, 15, 5, 3, 1],
-            "static" => [35, 8, 30, 15, 6, 2, 2, 4, 0],
-            "sensitive" => [6, 3, 18, 18, 35, 10, 4, 4, 0],
-            _ => [14, 3, 14, 9, 30, 14, 5, 3, 1],
+            "evict" => [4, 2, 6, 4, 40, 25, 6, 4, 1],
+            "resize" => [8, 3, 10, 6, 40, 15, 5, 3, 1],
+            "static" => [35, 10, 30, 15, 6, 2, 2, 4, 0],
+            "sensitive" => [6, 4, 18, 18, 35, 10, 4, 4, 0],
+            _ => [14, 4, 14, 9, 30, 14, 5, 3, 1],
         };
         let mut w = w;
         if self.cur_max > 700 {
@@ -777,8 +777,17 @@ impl Gen {
         let mut f = match cat {
             0 => self.pseudo(),
             1 => FieldIn {
+                // the only `Field` name with an exact-value static entry: the exact value and
+                // near misses of it
                 name: Some(b"accept-encoding".to_vec()),
-                value: b"gzip, deflate".to_vec(),
+                value: match self.rng.below(10) {
+                    0..=4 => b"gzip, deflate".to_vec(),
+                    5 => b"gzip,deflate".to_vec(),
+                    6 => b"gzip, deflate ".to_vec(),
+                    7 => b"gzip".to_vec(),
+                    8 => b"gzip, deflatf".to_vec(),
+                    _ => self.pool_value(),
+                },
                 sens: false,
             },
             2 => FieldIn {
